@@ -89,6 +89,10 @@ fn in_fresh_process(req: &ChildReq) -> Option<Option<(Vec<u8>, Vec<u8>)>> {
     Some(Some((unhex(&resp.a).ok()?, unhex(&resp.b).ok()?)))
 }
 
+pub fn sign_in_fresh_process(hash: HashId, params: &[(u32, u32)], seed: &[u8], prv: &[u8], msg: &[u8]) -> Option<Option<(Vec<u8>, Vec<u8>)>> {
+    in_fresh_process(&ChildReq { kind: "Sign".to_string(), hash, params: params.to_vec(), seed: hex(seed), prv: hex(prv), msg: hex(msg) })
+}
+
 pub fn op_recheck(w: &mut World, op_ref: usize, ctx: Context) {
     let rec: OpRecord = match w.records.get(op_ref).cloned().flatten() {
         Some(r) => r,
